@@ -17,21 +17,25 @@ package plugin
 //@ func EncodeIdentity(name, data) (s)
 //@   ensures#valid s != "" ==> validname(name)                                                             [C09 C17]
 //@   call bech32.Encode#1 requires same(arg1, data)                                                        [C09]
+//@   modifies nothing
 
 //@ func EncodeRecipient(name, data) (s)
 //@   ensures#valid s != "" ==> validname(name)                                                             [C09 C17]
 //@   call bech32.Encode#1 requires same(arg1, data)                                                        [C09]
+//@   modifies nothing
 
 //@ func ParseIdentity(s) (name, data, err)
 //@   ensures#valid err == nil ==> validname(name)                                                          [C09 C17]
 //@   ensures#nil err != nil ==> name == "" && data == nil                                                  [C09 C14 C17]
 //@   ensures#ascii err == nil ==> (forall j in 0..len(s) :: 33 <= at(s, j) && at(s, j) <= 126)              [C09]
 //@   ensures#name err == nil ==> hasprefix(s, "AGE-PLUGIN-") && len(s) >= len(name) + 13 && (forall j in 0..len(name) :: at(name, j) == lowerc(at(s, 11 + j))) && at(s, 11 + len(name)) == 45 && at(s, 12 + len(name)) == 49   [C09 C17]
+//@   modifies nothing
 
 //@ func ParseRecipient(s) (name, data, err)
 //@   ensures#valid err == nil ==> validname(name)                                                          [C09 C17]
 //@   ensures#nil err != nil ==> name == "" && data == nil                                                  [C09 C14 C17]
 //@   ensures#hrp err == nil ==> hasprefix(s, cat("age1", name)) && at(s, 4 + len(name)) == 49               [C09 C17]
+//@   modifies nothing
 
 //@ func NewRecipient(s, ui) (r, err)
 //@   ensures#valid err == nil ==> r != nil && validname(r.name) && r.encoding == s && r.ui == ui && !r.identity     [C17]
@@ -62,12 +66,12 @@ package plugin
 //@ func writeStanza(conn, t, args) (err)
 //@   requires conn != nil
 //@   ensures#out err == nil ==> hasprefix(conn.$out, old(conn.$out))
-//@   modifies conn.$out
+//@   modifies conn.$out, conn.$wn
 
 //@ func writeStanzaWithBody(conn, t, body) (err)
 //@   requires conn != nil
 //@   ensures#out err == nil ==> hasprefix(conn.$out, old(conn.$out))
-//@   modifies conn.$out
+//@   modifies conn.$out, conn.$wn
 
 //@ func openClientConnection(name, protocol) (cc, err)
 //@   modifies $execs
@@ -98,7 +102,7 @@ package plugin
 //@   call writeStanza#6 requires arg1 == "fail" && s.Type == "confirm" && c.Confirm == nil                                          [C16]
 //@   call writeStanza#7 requires arg1 == "fail" && s.Type == "confirm"                                                             [C16]
 //@   call writeStanza#8 requires arg1 == "ok" && s.Type == "confirm" && len(arg2) == 1 && (arg2[0] == "yes" || arg2[0] == "no")     [C16]
-//@   modifies conn.$out, $handled
+//@   modifies conn.$out, conn.$wn, $handled
 //@   assumes#handled $handled == old($handled) + (ok ? 1 : 0)
 //@   ensures#known ok <==> (s.Type == "msg" || s.Type == "request-secret" || s.Type == "request-public" || s.Type == "confirm")     [C16]
 //@   ensures#unknownsilent !ok ==> err == nil && conn.$out == old(conn.$out)                                                       [C16]
